@@ -30,7 +30,7 @@ EXTRA_CHECKS = {'C26': ['contracts.c26_census:check'],
                 'C32': ['contracts.c32_expiry:census'],
                 'C11': ['contracts.c11_bounded:check'],
                 'C05': ['contracts.c05_bounded:check'],
-                'C13': ['contracts.c13_bounded:check']}
+                'C13': ['contracts.c13_bounded:check', 'contracts.c13_ops_bounded:check']}
 
 EXPECTED_MIN_OBLIGATIONS = {'C18': 150}
 
